@@ -19,8 +19,8 @@ def top_name(j):
 
 
 def check(run, replay_case=None):
-    n = 120 if run.quick() else 3000
-    reps = 4 if run.quick() else 12
+    n = 400 if run.quick() else 4000
+    reps = 6 if run.quick() else 16
     maxperm = 24 if run.quick() else 120
     run.rule = ('sets of 2-4 (thorough: up to 5) mutually referencing schemas {chains, diamonds, cycles, cross-namespace, nested definitions referenced by other inputs, recursive + '
                 'dependency, conflicting duplicates of four kinds, alias/name collision, dangling references, enum/fixed mixes} x ALL permutations (<= %d) x %d repeats in one process '
@@ -72,7 +72,7 @@ def check(run, replay_case=None):
                 e = ev.get('%s/o%d/%s' % (cid, pi, 'r%d' % r if r != 'w' else 'w'))
                 if e is None:
                     continue
-                run.eval((c['shape'], k, perm), c['shape'] not in ('independent',))
+                run.eval((c['shape'], k, perm, json.dumps(c['schemas'], sort_keys=True) if c['shape'] == 'random-graph' else None), c['shape'] not in ('independent',))
                 if 'panic' in e:
                     run.violation('panic site=%s shape=%s' % (e['panic']['site'], c['shape']), 'multi-schema parsing panicked', dict(case, order=list(perm)), observed=e['panic'])
                     continue
@@ -94,22 +94,50 @@ def check(run, replay_case=None):
         run.hist('ground_truth', 'acceptable' if truth else 'unacceptable:%s' % why)
         if len(run.samples) < 5:
             run.sample({'shape': c['shape'], 'schemas': c['schemas'], 'ground_truth': truth, 'outcomes': {str(k2): len(v) for k2, v in outcomes.items()}})
-        oks = [k2 for k2 in outcomes if k2[0]]
-        errs = [k2 for k2 in outcomes if not k2[0]]
-        if oks and errs:
-            run.violation('outcome-depends-on-order-or-run shape=%s truth=%s' % (c['shape'], 'acceptable' if truth else why),
-                          'the same set succeeds for some orderings/runs and fails for others (%d ok, %d err: %s)' % (sum(len(outcomes[k2]) for k2 in oks), sum(len(outcomes[k2]) for k2 in errs), errs[0][1]),
-                          dict(case, ok_example=[list(x) if isinstance(x, tuple) else x for x in outcomes[oks[0]][0]], err_example=[list(x) if isinstance(x, tuple) else x for x in outcomes[errs[0]][0]]))
-        elif oks and not truth:
-            run.violation('accepted-although-%s shape=%s' % (why, c['shape']), 'the set is accepted in every ordering although the reference finds: %s' % why, case)
-        elif errs and truth and not oks:
-            run.violation('rejected-although-resolvable shape=%s kind=%s' % (c['shape'], errs[0][1]), 'every reference resolves and no name is defined twice, yet the set is rejected', case,
-                          observed=errs[0][1])
+        # parse_list (r*) and parse_str_with_list (w) have different contracts: for the latter the list must be
+        # closed on its own and the main schema is resolved against it
+        groups = {'list': ({}, truth, why)}
+        for (okk, kind), occ in outcomes.items():
+            for perm, r in occ:
+                if r == 'w':
+                    m = perm[0]
+                    g = 'with_list main=%d' % m
+                    if g not in groups:
+                        rest_ok, rest_why = SS.ground_truth([c['schemas'][i] for i in range(k) if i != m])
+                        t2, w2 = (truth, why) if rest_ok or not truth else (False, 'list-not-closed:' + rest_why)
+                        if truth and not rest_ok and SS.closed_counting_aliases([c['schemas'][i] for i in range(k) if i != m]):
+                            # the list is closed only if an alias counts as a definition: the specification does not say; not judged
+                            t2, w2 = None, None
+                        groups[g] = ({}, t2, w2)
+                    groups[g][0].setdefault((okk, kind), []).append((perm, r))
+                else:
+                    groups['list'][0].setdefault((okk, kind), []).append((perm, r))
+        any_err = False
+        for g, (outc, gtruth, gwhy) in sorted(groups.items()):
+            if not outc:
+                continue
+            api = g.split(' ')[0]
+            oks = [k2 for k2 in outc if k2[0]]
+            errs = [k2 for k2 in outc if not k2[0]]
+            any_err = any_err or bool(errs)
+            if oks and errs:
+                run.violation('outcome-depends-on-order-or-run api=%s shape=%s truth=%s' % (api, c['shape'], 'acceptable' if gtruth else (gwhy or 'unspecified')),
+                              'the same set succeeds for some orderings/runs and fails for others (%d ok, %d err: %s)' % (sum(len(outc[k2]) for k2 in oks), sum(len(outc[k2]) for k2 in errs), errs[0][1]),
+                              dict(case, group=g, ok_example=[list(x) if isinstance(x, tuple) else x for x in outc[oks[0]][0]], err_example=[list(x) if isinstance(x, tuple) else x for x in outc[errs[0]][0]]))
+            elif gtruth is None:
+                run.count('with_list_groups_closed_only_through_an_alias(not_judged)')
+            elif oks and not gtruth:
+                run.violation('accepted-although-%s api=%s shape=%s' % (gwhy, api, c['shape']), 'the set is accepted in every ordering although the reference finds: %s' % gwhy, dict(case, group=g))
+            elif errs and gtruth and not oks:
+                run.violation('rejected-although-resolvable api=%s shape=%s kind=%s' % (api, c['shape'], errs[0][1]), 'every reference resolves and no name is defined twice, yet the set is rejected', dict(case, group=g),
+                              observed=errs[0][1])
+        oks = [k2 for k2 in groups['list'][0] if k2[0]]
+        errs = [k2 for k2 in groups['list'][0] if not k2[0]]
         for key, variants in dumps.items():
             if len(variants) > 1:
                 vs = list(variants.keys())
                 ds = sorted(set(normalize.diffs(json.loads(vs[0]), json.loads(vs[1]))))
-                run.violation('schema-differs-between-orderings shape=%s %s' % (c['shape'], ds[0] if ds else 'text'), 'the schema returned for %s differs between orderings / runs' % key,
+                run.violation('schema-differs-between-orderings shape=%s' % c['shape'], 'the schema returned for %s differs between orderings / runs' % key,
                               dict(case, name=key, order_a=list(variants[vs[0]][0][0]), order_b=list(variants[vs[1]][0][0])), observed=json.loads(vs[1]), expected=json.loads(vs[0]))
         # cross-ordering encode/decode for accepted sets
         if oks and not errs and truth and len(c['_perms']) > 1:
@@ -122,15 +150,24 @@ def check(run, replay_case=None):
                 v = vg.gen(nodes[idx])
                 c['_v'] = (idx, v, nodes, p.env)
                 pa, pb = 0, len(c['_perms']) - 1
-                sa = ['%s_o%d_%d' % (cid, pa, i) for i in range(k)]
-                sb = ['%s_o%d_%d' % (cid, pb, i) for i in range(k)]
+                # the datum writer resolves its schemata in list order (documented): hand them over dependencies-first;
+                # sets with a cycle between inputs cannot be handed over in any order and are only counted
+                dord = SS.dep_order(c['schemas'])
+                if dord is None:
+                    run.count('accepted_sets_with_a_cycle_between_inputs(no_list_order_usable_by_the_datum_writer)')
+                    del c['_v']
+                    continue
+                c['_dord'] = dord
+                sa = ['%s_o%d_%d' % (cid, pa, i) for i in dord]
+                sb = ['%s_o%d_%d' % (cid, pb, i) for i in dord]
+                sia, sib = '%s_o%d_%d' % (cid, pa, idx), '%s_o%d_%d' % (cid, pb, idx)
                 texts = [json.dumps(s) for s in c['schemas']]
                 b2.append([{'id': '%s/pa' % cid, 'op': 'parse_list', 'texts': [texts[i] for i in c['_perms'][pa]], 'sids': ['%s_o%d_%d' % (cid, pa, i) for i in c['_perms'][pa]]},
                            {'id': '%s/pb' % cid, 'op': 'parse_list', 'texts': [texts[i] for i in c['_perms'][pb]], 'sids': ['%s_o%d_%d' % (cid, pb, i) for i in c['_perms'][pb]]},
-                           {'id': '%s/wa' % cid, 'op': 'datum_write', 'sid': sa[idx], 'schemata': sa, 'value': v},
-                           {'id': '%s/wb' % cid, 'op': 'datum_write', 'sid': sb[idx], 'schemata': sb, 'value': v}])
-            except Exception:
-                pass
+                           {'id': '%s/wa' % cid, 'op': 'datum_write', 'sid': sia, 'schemata': sa, 'value': v},
+                           {'id': '%s/wb' % cid, 'op': 'datum_write', 'sid': sib, 'schemata': sb, 'value': v}])
+            except names.SchemaError:
+                run.count('accepted_sets_the_reference_cannot_model')
     ev2 = run.exec_cases(b2) if b2 else {}
     b3 = []
     for c in cases:
@@ -142,6 +179,15 @@ def check(run, replay_case=None):
         wa, wb = ev2.get('%s/wa' % cid), ev2.get('%s/wb' % cid)
         case = {'schemas': c['schemas'], 'shape': c['shape'], 'cid': cid, 'value': v, 'schema_index': idx}
         if wa is None or wb is None:
+            continue
+        rep = [ev2.get('%s/%s' % (cid, x)) for x in ('pa', 'pb')]
+        if any(x is not None and 'err' in x for x in rep):
+            # the same list parsed a moment ago in every ordering: a later parse of it failing is the run-dependence itself
+            bad = [x for x in rep if x is not None and 'err' in x][0]
+            run.violation('outcome-depends-on-order-or-run api=list shape=%s truth=acceptable' % c['shape'],
+                          'a set that parsed in every ordering fails when parsed again (%s)' % bad['err'].get('kind'), case, observed=bad)
+            continue
+        if 'harness_error' in wa or 'harness_error' in wb:
             continue
         run.count('cross_ordering_value_checks')
         ba = wa.get('ok', {}).get('bytes')
@@ -156,13 +202,13 @@ def check(run, replay_case=None):
             run.violation('bytes-differ-between-orderings shape=%s' % c['shape'], 'the same value encodes differently with schemata from two orderings', case, observed=[ba, bb])
         elif ba != exp:
             run.violation('bytes-differ-from-reference shape=%s' % c['shape'], 'encoding with the parsed set differs from the reference encoding', case, observed=ba, expected=exp)
-        sa = ['%s_o%d_%d' % (cid, 0, i) for i in range(k)]
-        sb = ['%s_o%d_%d' % (cid, len(c['_perms']) - 1, i) for i in range(k)]
+        sb = ['%s_o%d_%d' % (cid, len(c['_perms']) - 1, i) for i in c['_dord']]
+        sib = '%s_o%d_%d' % (cid, len(c['_perms']) - 1, idx)
         texts = [json.dumps(s) for s in c['schemas']]
         pa, pb = 0, len(c['_perms']) - 1
         b3.append([{'id': '%s/pa' % cid, 'op': 'parse_list', 'texts': [texts[i] for i in c['_perms'][pa]], 'sids': ['%s_o%d_%d' % (cid, pa, i) for i in c['_perms'][pa]]},
                    {'id': '%s/pb' % cid, 'op': 'parse_list', 'texts': [texts[i] for i in c['_perms'][pb]], 'sids': ['%s_o%d_%d' % (cid, pb, i) for i in c['_perms'][pb]]},
-                   {'id': '%s/rb' % cid, 'op': 'datum_read', 'sid': sb[idx], 'schemata': sb, 'bytes': ba}])
+                   {'id': '%s/rb' % cid, 'op': 'datum_read', 'sid': sib, 'schemata': sb, 'bytes': ba}])
     ev3 = run.exec_cases(b3) if b3 else {}
     for c in cases:
         if '_v' not in c:
